@@ -71,6 +71,7 @@ def run(tier, seed, argv):
     rep.bounds = dict(configs=len(jobs), methods=["eigh", "QR"], steps="T<=4 re-based", shapes="<=8 elements, order 1..3 blocks", dtype_pairs="float32/float32, bfloat16/float32, float32/float64, float64/float64")
     rep.assumptions = ["matrix_eigenvectors is a recording stub returning a fresh matrix (contract: orthonormal, hence non-zero); the routine itself is C12's subject",
                        "real arithmetic; dtypes are tags with torch's promotion / mismatch rules for the operations used", "generic equality regime except one all-regime job per method"]
+    rep.validate_standin(6 if tier == "quick" else 24)
     rep.absorb("soap-reference", par.run_jobs(jobs, chunk=6))
     return rep.finish("checks.c03")
 
